@@ -39,6 +39,10 @@ RULE = (
     "00 s (one more re-synchronisation permitted each)."
     " \"wallstep\" steps change only what time.time shows (-400 days .. +1 day) while no time p"
     "asses."
+    ' Histories contain operations that fail on the way (datagram k lost or answered with gar'
+    'bage): their own outcome is not judged, the operations after them are; requests the agen'
+    't found outside its window during such an operation are permitted on top of one per rebo'
+    'ot / drift.'
 )
 ASSUMPTIONS = [
     "the unbounded 'succeeds any time later' is restated as bounded progress: every operation of every generated history",
